@@ -138,7 +138,7 @@ func baseHistories() []baseHist {
 	}
 }
 
-var termCauses = []string{"shutdown", "client-disconnect", "broker-close", "broker-garbage", "broker-truncated", "sn-garbage", "sn-short", "illegal-packet"}
+var termCauses = []string{"shutdown", "client-disconnect", "broker-close", "broker-garbage", "broker-illegal", "sn-garbage", "sn-short", "illegal-packet"}
 
 type termCase struct {
 	h     int
